@@ -37,14 +37,14 @@ var c08Vars = []c08Var{
 }
 
 type c08Cfg struct {
-	pop       []int // indices into c08Vars, one per population node (ids[1..])
-	reqHost   bool
-	kind      string
-	k         int
-	max       int
-	modes     []int // per population node: HostAck/HostErr/HostSilent (only meaningful for connected hosts)
-	legacy    bool  // use vipnode_client (NumHosts = k, 0 = absent)
-	driver    string
+	pop     []int // indices into c08Vars, one per population node (ids[1..])
+	reqHost bool
+	kind    string
+	k       int
+	max     int
+	modes   []int // per population node: HostAck/HostErr/HostSilent (only meaningful for connected hosts)
+	legacy  bool  // use vipnode_client (NumHosts = k, 0 = absent)
+	driver  string
 }
 
 func (c c08Cfg) String() string {
